@@ -11,6 +11,7 @@ import (
 	"reflect"
 	"strings"
 	"testing"
+	"time"
 	"unicode/utf8"
 
 	"github.com/remieven/ysgo"
@@ -21,11 +22,41 @@ import (
 // ---------------------------------------------------------------------------------------
 // C13
 
+// markupTimeout: ParseMarkup is given this long before the check declares that it does not terminate (a line of at
+// most a few hundred bytes parses in microseconds). The stuck goroutine is abandoned.
+const markupTimeout = 10 * time.Second
+
+type markupOutcome struct {
+	res      *markup.ParseResult
+	err      error
+	panicked any
+}
+
+// parseTimed runs ParseMarkup on p in its own goroutine so that a parse that never returns is reported, not waited for.
+func parseTimed(p *markup.LineParser, input string) (markupOutcome, bool) {
+	done := make(chan markupOutcome, 1)
+	go func() {
+		var o markupOutcome
+		defer func() {
+			o.panicked = recover()
+			done <- o
+		}()
+		o.res, o.err = p.ParseMarkup(input)
+	}()
+	select {
+	case o := <-done:
+		return o, true
+	case <-time.After(markupTimeout):
+		return markupOutcome{}, false
+	}
+}
+
 func parseFresh(input string) (res *markup.ParseResult, err error, panicked any) {
-	defer func() { panicked = recover() }()
-	var p markup.LineParser
-	res, err = p.ParseMarkup(input)
-	return
+	o, returned := parseTimed(&markup.LineParser{}, input)
+	if !returned {
+		return nil, nil, fmt.Sprintf("ParseMarkup did not return within %v: it does not terminate", markupTimeout)
+	}
+	return o.res, o.err, o.panicked
 }
 
 func runC13(l markupLine) Verdict {
@@ -429,12 +460,17 @@ type parseOutcome struct {
 }
 
 func parseWith(p *markup.LineParser, input string) (o parseOutcome, panicked any) {
-	defer func() { panicked = recover() }()
-	res, err := p.ParseMarkup(input)
-	if err != nil {
+	out, returned := parseTimed(p, input)
+	if !returned {
+		return parseOutcome{}, fmt.Sprintf("ParseMarkup did not return within %v: it does not terminate", markupTimeout)
+	}
+	if out.panicked != nil {
+		return parseOutcome{}, out.panicked
+	}
+	if out.err != nil {
 		return parseOutcome{Err: "error"}, nil
 	}
-	return parseOutcome{Res: res}, nil
+	return parseOutcome{Res: out.res}, nil
 }
 
 func embeddable(line string) bool {
@@ -626,13 +662,11 @@ func runC15Reused(c c14Case) Verdict {
 	p := &markup.LineParser{}
 	attrs, errs := 0, 0
 	for i, line := range append(append([]string{}, c.History...), c.Probe) {
-		var res *markup.ParseResult
-		var err error
-		var panicked any
-		func() {
-			defer func() { panicked = recover() }()
-			res, err = p.ParseMarkup(line)
-		}()
+		o, returned := parseTimed(p, line)
+		if !returned {
+			return failf("line %d of the history %q: ParseMarkup(%q) did not return within %v: it does not terminate", i, c.History, line, markupTimeout)
+		}
+		res, err, panicked := o.res, o.err, o.panicked
 		if panicked != nil {
 			return failf("line %d of the history %q: ParseMarkup(%q) panicked: %v", i, c.History, line, panicked)
 		}
@@ -652,3 +686,30 @@ func runC15Reused(c c14Case) Verdict {
 var c15Reused = Register(Prop[c14Case]{ID: "C15", Name: "reused-parser", Gen: genC14, Run: runC15Reused})
 
 func TestC15Reused(t *testing.T) { Check(t, c15Reused) }
+
+// Long histories: the probe line has been parsed before, followed by many distinct other lines (state that only
+// shows after a parser has seen a lot, e.g. a cache that wraps around).
+var c14Long = Register(Prop[c14Case]{ID: "C14", Name: "long-history", Run: runC14ParserOnly,
+	Gen: func(t *rapid.T) c14Case {
+		n := rapid.IntRange(20, 90).Draw(t, "length")
+		var c c14Case
+		pool := []string{renderMarkupLine(genMarkupLine(t)), renderMarkupLine(genMarkupLine(t)), genLiberalLine(t), renderMarkupLine(genMarkupLine(t))}
+		for i := 0; i < n; i++ {
+			switch rapid.IntRange(0, 5).Draw(t, "kind") {
+			case 0:
+				c.History = append(c.History, rapid.SampledFrom(pool).Draw(t, "pooled"))
+			case 1:
+				c.History = append(c.History, fmt.Sprintf("[a]line %d[/a] [b n=%d /] tail", i, i))
+			default:
+				c.History = append(c.History, fmt.Sprintf("%s #%d", rapid.SampledFrom(pool).Draw(t, "base"), i))
+			}
+		}
+		c.Probe = c.History[rapid.IntRange(0, min(8, n-1)).Draw(t, "which")]
+		return c
+	},
+	Render: func(c c14Case) any {
+		return map[string]any{"history_lines": len(c.History), "first_lines": c.History[:min(3, len(c.History))], "probe": c.Probe}
+	},
+})
+
+func TestC14LongHistory(t *testing.T) { Check(t, c14Long) }
